@@ -533,6 +533,12 @@ func buildGraph(e *env, nodes []NodeSpec, startSucc []int, startBranches []Branc
 			}
 			continue
 		}
+		if n.Kind == "pass" {
+			if err := g.AddPassthroughNode(keyOf(i)); err != nil {
+				return nil, err
+			}
+			continue
+		}
 		var opts []compose.GraphAddNodeOpt
 		if n.InKey != "" {
 			opts = append(opts, compose.WithInputKey(n.InKey))
@@ -750,9 +756,16 @@ func callAndRead(e *env, r compose.Runnable[M, M]) runOut {
 	if c.Handlers > 0 {
 		var hs []callbacks.Handler
 		for i := 0; i < c.Handlers; i++ {
-			hs = append(hs, handlerOf(c.HandlerPrefix))
+			if i > 0 && c.SameHandler {
+				hs = append(hs, hs[0])
+			} else {
+				hs = append(hs, handlerOf(c.HandlerPrefix))
+			}
 		}
 		opts = append(opts, compose.WithCallbacks(hs...))
+	}
+	for _, x := range c.HandlerNodes {
+		opts = append(opts, compose.WithCallbacks(handlerOf(c.HandlerPrefix)).DesignateNode(nodeName(x)))
 	}
 	var sr *schema.StreamReader[M]
 	var err error
